@@ -157,6 +157,13 @@ func StepWorkflowPaths(wf *workflow.Workflow) map[string]string {
 // SubworkflowCache creates a file cache of the sub-workflows referenced
 // in this workflow using rootDir as a context.
 func SubworkflowCache(wf *workflow.Workflow, rootDir string, converter workflow.YAMLConverter, flowCaches []loadfile.FileCache) (loadfile.FileCache, error) {
+	return cacheSubworkflows(wf, rootDir, converter, flowCaches, map[string]struct{}{})
+}
+
+// cacheSubworkflows implements SubworkflowCache. The ancestors set holds the absolute paths of the
+// sub-workflow files currently being expanded, so that a sub-workflow that (transitively)
+// references itself is reported instead of being followed forever.
+func cacheSubworkflows(wf *workflow.Workflow, rootDir string, converter workflow.YAMLConverter, flowCaches []loadfile.FileCache, ancestors map[string]struct{}) (loadfile.FileCache, error) {
 	stepWorkflowPaths := StepWorkflowPaths(wf)
 	if len(stepWorkflowPaths) == 0 {
 		return nil, nil
@@ -170,11 +177,16 @@ func SubworkflowCache(wf *workflow.Workflow, rootDir string, converter workflow.
 		return nil, err
 	}
 	for _, ctxFile := range subworkflowCache.Files() {
+		if _, isAncestor := ancestors[ctxFile.AbsolutePath]; isAncestor {
+			return nil, fmt.Errorf("sub-workflow %s references itself recursively", ctxFile.AbsolutePath)
+		}
 		subwf, err := converter.FromYAML(ctxFile.Content)
 		if err != nil {
 			return nil, err
 		}
-		flowCache, err := SubworkflowCache(subwf, rootDir, converter, flowCaches)
+		ancestors[ctxFile.AbsolutePath] = struct{}{}
+		flowCache, err := cacheSubworkflows(subwf, rootDir, converter, flowCaches, ancestors)
+		delete(ancestors, ctxFile.AbsolutePath)
 		if err != nil {
 			return nil, err
 		}
